@@ -82,10 +82,20 @@ Definition excl_eqb (a b : list (Z * string)) : bool :=
   Nat.eqb (List.length a) (List.length b) &&
   forallb (fun p => Z.eqb (fst (fst p)) (fst (snd p)) && String.eqb (snd (fst p)) (snd (snd p))) (combine a b).
 
+(* ledgers are compared as sets: both sides sorted by assertion id (the engine lists
+   them in index-posting order, which is not part of the property) *)
+Fixpoint zins (x : Z) (l : list Z) : list Z :=
+  match l with [] => [x] | y :: r => if Z.leb x y then x :: l else y :: zins x r end.
+Definition zsort (l : list Z) : list Z := fold_right zins [] l.
+Fixpoint xins (x : Z * string) (l : list (Z * string)) : list (Z * string) :=
+  match l with [] => [x] | y :: r => if Z.leb (fst x) (fst y) then x :: l else y :: xins x r end.
+Definition xsort (l : list (Z * string)) : list (Z * string) := fold_right xins [] l.
+
 Definition eobs_eqb (a b : eobs) : bool :=
   let '(st, s, sg, o, og, (ls, lo, lu, lx)) := a in
   let '(st', s', sg', o', og', (ls', lo', lu', lx')) := b in
   status_eqb st st' && f_same s s' && Nat.eqb sg sg' && f_same o o' && Nat.eqb og og' &&
-  zlist_eqb ls ls' && zlist_eqb lo lo' && zlist_eqb lu lu' && excl_eqb lx lx'.
+  zlist_eqb (zsort ls) (zsort ls') && zlist_eqb (zsort lo) (zsort lo') &&
+  zlist_eqb (zsort lu) (zsort lu') && excl_eqb (xsort lx) (xsort lx').
 
 Definition check_e2e (co : ecase * eobs) : bool := eobs_eqb (run_e2e (fst co)) (snd co).
